@@ -1,8 +1,8 @@
 SPECIFICATION Spec
 CONSTANTS
-    IdOrder <- MCIds4
+    IdOrder <- MCIds5
     ValOrder <- MCVals
-    Payloads = {1, 2}
+    Payloads = {1}
     SegOrder <- MCSegs
     GlobTable <- MCGlob
     Grid <- MCGrid
